@@ -385,3 +385,60 @@ def _hidden_state(repo):
     if not rows:
         raise KeyError("hidden state")
     return rows, f"def c15HiddenState : List String := {_lean_list(rows)}"
+
+
+@item("C15_MEMO_MAP")
+def _memo_map(repo):
+    """memo-map (the version pinned in Cargo.lock, read from the cargo registry): per method of `MemoMap`
+    that `loader.rs` uses, the receiver and the order of what happens under the mutex.  The concurrent
+    model `MJ/Model/MemoConc.lean` relies on: `get_or_try_insert(&self)` takes the lock FIRST and keeps it
+    over look-up, creator and insert (no `drop`/unlock in between); everything that replaces or removes an
+    entry takes `&mut self` (cannot run while another thread holds `&Environment`)."""
+    import os, glob
+    lock = read(repo, "Cargo.lock")
+    m = re.search(r'name = "memo-map"\s*\nversion = "([^"]+)"', lock)
+    if not m:
+        raise KeyError("memo-map in Cargo.lock")
+    ver = m.group(1)
+    homes = [os.environ.get("CARGO_HOME") or "", os.path.expanduser("~/.cargo"), "/root/.cargo"]
+    path = None
+    for h in homes:
+        if not h:
+            continue
+        c = sorted(glob.glob(os.path.join(h, "registry", "src", "*", f"memo-map-{ver}", "src", "lib.rs")))
+        if c:
+            path = c[0]
+            break
+    if path is None:
+        raise KeyError(f"source of memo-map {ver} in the cargo registry")
+    src = _strip_tests(_nocomment(open(path).read()))
+    used = sorted(set(re.findall(r"owned_templates\s*\.\s*(\w+)\s*\(", _nocomment(read(repo, LOADER)))))
+    rows = [("version", ver, [])]
+    for name in used:
+        hm = re.search(r"pub fn %s\s*(?:<[^>]*>)?\s*\(\s*(&mut self|&self|self)" % re.escape(name), src)
+        if not hm:
+            rows.append((name, "not-found", []))
+            continue
+        body = fn_body(src[hm.start():], r"pub fn %s\b" % re.escape(name))
+        # a method that only forwards to another one is followed once
+        fw = re.fullmatch(r"\s*self\s*\.\s*(\w+)\s*\((?:.|\n)*", body)
+        ev = []
+        pats = [(r"lock!\s*\(|\.lock\s*\(\s*\)", "lock"), (r"get_mut!\s*\(", "exclusive"),
+                (r"\.\s*insert\s*\([^;]*creator\s*\(\s*\)", "insert(creator)"),
+                (r"\.\s*get\s*\(", "get"), (r"\.\s*contains_key\s*\(", "contains"),
+                (r"\.\s*entry\s*\(", "entry"), (r"\.\s*remove\s*\(", "remove"), (r"\.\s*clear\s*\(", "clear"),
+                (r"\.\s*(?:keys|iter|values)\s*\(", "iterate"), (r"Clone::clone|\.clone\s*\(", "clone"),
+                (r"\bdrop\s*\(|unlock", "drop")]
+        for pat, tag in pats:
+            mm = re.search(pat, body)
+            if mm:
+                ev.append((mm.start(), tag))
+        if not any(t == "insert(creator)" for _, t in ev):
+            mm = re.search(r"\.\s*insert\s*\(", body)
+            if mm:
+                ev.append((mm.start(), "insert"))
+        ev.sort()
+        rows.append((name, hm.group(1), [t for _, t in ev] + ([f"->{fw.group(1)}"] if fw and not ev else [])))
+    lean = "def c15MemoMap : List (String × String × List String) := [" + ", ".join(
+        f"({lean_str(a)}, {lean_str(b)}, {_lean_list(c)})" for a, b, c in rows) + "]"
+    return rows, lean
